@@ -246,11 +246,11 @@ struct Ctx {
     rt: tokio::runtime::Runtime,
     srv: Server,
     /// (layout, final file) -> key text, for well-formed keys (injectivity oracle)
-    finals: HashMap<(String, String), String>,
+    finals: HashMap<(String, String), (String, String)>,
     /// (layout, temp file) -> key text, all keys whose temp name was observed
-    temps: HashMap<(String, String), String>,
+    temps: HashMap<(String, String), (String, String)>,
     /// (layout, final file) -> key text, all keys (for temp/final aliasing)
-    all_finals: HashMap<(String, String), String>,
+    all_finals: HashMap<(String, String), (String, String)>,
 }
 
 fn disk_cfg(root: &Path, layout: &str) -> Option<DiskCacheConfig> {
@@ -401,34 +401,34 @@ fn url_path(target: &Option<String>, cu: bool) -> String {
 fn note_final(s: &mut Session, ctx: &mut Ctx, layout: &str, file: &str, key: &str, wf: bool, req: &str) {
     let k = (layout.to_string(), file.to_string());
     if wf {
-        if let Some(prev) = ctx.finals.get(&k) {
+        if let Some((prev, preq)) = ctx.finals.get(&k) {
             if prev != key {
-                s.oracle_fail("collide-wf", &format!("well-formed keys {prev:?} and {key:?} are stored in the same file {file}"), &[req.to_string()]);
+                s.oracle_fail("collide-wf", &format!("well-formed keys {prev:?} and {key:?} are stored in the same file {file}"), &[preq.clone(), req.to_string()]);
             }
         } else {
-            ctx.finals.insert(k.clone(), key.to_string());
+            ctx.finals.insert(k.clone(), (key.to_string(), req.to_string()));
         }
     }
-    if let Some(other) = ctx.temps.get(&k) {
+    if let Some((other, oreq)) = ctx.temps.get(&k) {
         if other != key {
-            s.oracle_fail("tmp-aliases-final", &format!("the temporary file of key {other:?} is the final file {file} of key {key:?}"), &[req.to_string()]);
+            s.oracle_fail("tmp-aliases-final", &format!("the temporary file of key {other:?} is the final file {file} of key {key:?}"), &[oreq.clone(), req.to_string()]);
         }
     }
-    ctx.all_finals.entry(k).or_insert_with(|| key.to_string());
+    ctx.all_finals.entry(k).or_insert_with(|| (key.to_string(), req.to_string()));
 }
 
 fn note_temp(s: &mut Session, ctx: &mut Ctx, layout: &str, tmp: &str, key: &str, req: &str) {
     let k = (layout.to_string(), tmp.to_string());
-    if let Some(prev) = ctx.temps.get(&k) {
+    if let Some((prev, preq)) = ctx.temps.get(&k) {
         if prev != key {
-            s.oracle_fail("tmp-shared-stem", &format!("keys {prev:?} and {key:?} use the same temporary file {tmp}"), &[req.to_string()]);
+            s.oracle_fail("tmp-shared-stem", &format!("keys {prev:?} and {key:?} use the same temporary file {tmp}"), &[preq.clone(), req.to_string()]);
         }
     } else {
-        ctx.temps.insert(k.clone(), key.to_string());
+        ctx.temps.insert(k.clone(), (key.to_string(), req.to_string()));
     }
-    if let Some(other) = ctx.all_finals.get(&k) {
+    if let Some((other, oreq)) = ctx.all_finals.get(&k) {
         if other != key {
-            s.oracle_fail("tmp-aliases-final", &format!("the temporary file {tmp} of key {key:?} is the final file of key {other:?}"), &[req.to_string()]);
+            s.oracle_fail("tmp-aliases-final", &format!("the temporary file {tmp} of key {key:?} is the final file of key {other:?}"), &[oreq.clone(), req.to_string()]);
         }
     }
 }
@@ -504,7 +504,9 @@ fn run_line(s: &mut Session, ctx: &mut Ctx, req: &str) -> Option<String> {
                 Ok((ok, d)) => {
                     check_confined(s, "disk", &refs, &d, req);
                     if ok && d.new_files.len() == 1 {
-                        note_final(s, ctx, layout, &d.new_files[0], &text, wf, req);
+                        // identity of a typed key = its field values, not the text they print to
+                        let ident = format!("{kind}({}) = {text:?}", args.iter().map(|a| if *a == "~" { "None".to_string() } else { dec_tok(a).filter(|_| !matches!(*kind, "blte" | "content" | "root" | "encoding" | "blteblock")).map(|x| format!("{x:?}")).unwrap_or_else(|| a.to_string()) }).collect::<Vec<_>>().join(", "));
+                        note_final(s, ctx, layout, &d.new_files[0], &ident, wf, req);
                     }
                     if wf && !ok {
                         s.oracle_fail("wf-put-fails", &format!("put of the well-formed key {text:?} failed"), &[req.to_string()]);
